@@ -296,7 +296,7 @@ def table_entry_points():
         txt = re.sub(r"#if defined\(PSUTIL_BSD\) \|\| defined\(PSUTIL_OSX\)\n(.*?)#endif", "", txt, flags=re.S)
         for m in re.finditer(r'\{"(\w+)",\s*(\w+),\s*METH_VARARGS', txt):
             out.append((f"{f}: entry point '{m.group(1)}' -> {m.group(2)} is under a C contract", m.group(2) in have,
-                        "add a CContract for it in contracts/C17.py"))
+                        "add a CContract for it in contracts/C17.py", "coverage"))
     return out
 
 
@@ -318,16 +318,17 @@ def table_net_if_flags():
     seen = {}
     for macro, blk in steps:
         code = re.sub(r"//[^\n]*", "", blk)
-        tests = re.findall(r"flags\s*&\s*IFF_(\w+)", code)
-        names = re.findall(r'append_flag\(\s*py_retlist\s*,\s*"(\w+)"', code)
+        tests = re.findall(r"\w+\s*&\s*IFF_(\w+)", code)           # whatever the locals are called
+        names = re.findall(r'append_flag\(\s*\w+\s*,\s*"(\w+)"', code)
         ok = tests == [macro] and names == [macro.lower()]
         out.append((f"step IFF_{macro} tests IFF_{macro} and reports '{macro.lower()}'", ok, f"tests {tests}, reports {names}"))
         seen[macro.lower()] = seen.get(macro.lower(), 0) + 1
     for nme in LINUX_IFF:
         out.append((f"flag '{nme}' has exactly one step", seen.get(nme) == 1, f"{seen.get(nme, 0)} steps"))
-    m = re.search(r"flags\s*=\s*([^;]+);", body)
-    out.append(("the tested word is the kernel's ifr_flags (16 bits)", bool(m) and re.sub(r"\s", "", m.group(1)) in
-                ("ifr.ifr_flags&0xFFFF", "ifr.ifr_flags", "(unsignedshort)ifr.ifr_flags"), m.group(1) if m else "not found"))
+    m = re.search(r"\b\w+\s*=\s*([^;]*\bifr_flags\b[^;]*);", body)
+    rhs = re.sub(r"\s", "", m.group(1)) if m else ""
+    out.append(("the tested word is the kernel's ifr_flags (16 bits)",
+                bool(re.fullmatch(r"(\(\w[\w ]*\))?\w+\.ifr_flags(&(0xFFFF|0xffff|65535))?", rhs)), rhs or "not found"))
     return out
 
 
